@@ -34,8 +34,8 @@ Check (C05_dial_address_refusals :
   forall listen a code, dial_shape listen a = SvRefuse code ->
   code = RET_PEER_ID_MISSING \/ code = RET_SELF' \/ code = RET_NOT_SUPPORTED).
 Check (C05_refused_address_unchanged :
-  forall L m a code, limit_reached (max_out L) (outs m) = false ->
-  dial_shape LISTEN a = SvRefuse code -> do_dial_shape L m a = (m, [Ret code])).
+  forall L m a, (forall p, dial_shape LISTEN a <> SvTcp p) ->
+  exists code, do_dial_shape L m a = (m, [Ret code])).
 Check (C05_dial_address_unfixed_refuted :
   exists a q q', dial_shape_unfixed [] a = SvTcp q /\
                  (exists ho port, parse TTcp a = Some (ho, port, Some q')) /\ q <> q').
